@@ -411,6 +411,28 @@ def normalise(program):
                 skipped.append("walrus %s: %s" % (f.qualname, type(e).__name__))
                 continue
 
+    stats["logging_calls_dropped"] = 0
+    for m in program.modules.values():
+        loggers = set()
+        for st in m.tree.body:
+            if isinstance(st, ast.Assign) and len(st.targets) == 1 and isinstance(st.targets[0], ast.Name) and isinstance(st.value, ast.Call) \
+                    and isinstance(st.value.func, ast.Attribute) and st.value.func.attr == "getLogger" and isinstance(st.value.func.value, ast.Name) \
+                    and st.value.func.value.id == "logging":
+                loggers.add(st.targets[0].id)
+        if not loggers:
+            continue
+        for f in list(m.funcs.values()) + [f for c in m.classes.values() for f in c.methods.values()]:
+            try:
+                stats["logging_calls_dropped"] += inline.drop_logging(f.node, loggers)
+            except Exception as e:
+                skipped.append("logging %s: %s" % (f.qualname, type(e).__name__))
+    stats["annotations_stripped"] = 0
+    for m in program.modules.values():
+        for f in list(m.funcs.values()) + [f for c in m.classes.values() for f in c.methods.values()]:
+            try:
+                stats["annotations_stripped"] += inline.strip_annotations(f.node)
+            except Exception as e:
+                skipped.append("annotations %s: %s" % (f.qualname, type(e).__name__))
     stats["assignments_simplified"] = 0
     for m in program.modules.values():
         for f in list(m.funcs.values()) + [f for c in m.classes.values() for f in c.methods.values()]:
